@@ -24,9 +24,11 @@ CONCRETE = {   # abstract call kind of Tracker.tla -> concrete model_run calls
            {"entry": "xml_buffer", "text": XML_OK, "queries": ["A[] T.A", "E<> i == 1"], "query_builder": "tiga"},
            {"entry": "part", "part": "S_EXPRESSION", "text": "i + 1", "scaffold": SC}, {"builder": "pretty", "entry": "xta", "text": XTA_OK},
            {"entry": "none", "queries": ["E<> true", "A[] 1 < 2"], "query_builder": "tiga"}, {"entry": "none", "queries": ["E<> 2 > 1"], "query_builder": "property"},   # a query as the very first thing a call does
-           {"entry": "part", "part": "S_DECLARATION", "text": "typedef scalar[2] sid; sid sv; scalar[3] anon; int perm[sid];"},                      # scalar sets get generated type labels
+           ],
+    "scalar": [{"entry": "part", "part": "S_DECLARATION", "text": "typedef scalar[2] sid; sid sv; scalar[3] anon; int perm[sid];"},                      # scalar sets get generated type labels
            {"entry": "xta", "text": "typedef scalar[3] pid_t;\n" + XTA_OK.replace("process P()", "process P(pid_t id)")},
-           {"entry": "xml_buffer", "text": XML_OK.replace("int i; clock x;", "int i; clock x; scalar[2] tok; typedef scalar[4] S4;")}],
+           {"entry": "xml_buffer", "text": XML_OK.replace("int i; clock x;", "int i; clock x; scalar[2] tok; typedef scalar[4] S4;")},
+           {"entry": "xml_buffer", "text": XML_OK.replace("int i; clock x;", "int i; clock x; scalar[2] k0;"), "queries": ["E<> exists (k : scalar[2]) k == k0", "A[] forall (j : scalar[3]) true"], "query_builder": "tiga"}],
     "err": [{"entry": "part", "part": "S_DECLARATION", "text": "int v = ;"}, {"entry": "xml_buffer", "text": XML_DIAG}, {"entry": "xta", "text": XTA_DIAG},
             {"entry": "part", "part": "S_GUARD", "text": "i < ) 2", "scaffold": SC}, {"entry": "xml_buffer", "text": XML_OK, "queries": ["A[] (T.A", "E<> nosuch"], "query_builder": "tiga"},
             {"entry": "part", "part": "S_SYSTEM", "text": "system Nosuch;"}, {"entry": "none", "queries": ["E<> nosuch", "A[] ("], "query_builder": "tiga"},
@@ -81,7 +83,7 @@ def run(tier):
     vf.build_lib("plain")
     rnd = random.Random(c.seed)
     cfg = os.path.join(c.run_dir, "Tracker.cfg")
-    open(cfg, "w").write("CONSTANTS\n  M = 64\n  MaxCalls = %d\n  LlocReset = TRUE\n  TypesReset = TRUE\n  ResetBeforeReport = TRUE\nINIT Init\nNEXT Next\nVIEW View\nINVARIANTS EmitHist\nCHECK_DEADLOCK FALSE\n" % (3 if quick else 4))
+    open(cfg, "w").write("CONSTANTS\n  M = 64\n  MaxCalls = %d\n  LlocReset = TRUE\n  TypesReset = TRUE\n  ResetBeforeReport = TRUE\n  ScalarPerBuilder = TRUE\nINIT Init\nNEXT Next\nVIEW View\nINVARIANTS EmitHist\nCHECK_DEADLOCK FALSE\n" % (3 if quick else 4))
     mc = vf.run_tlc("Tracker", cfg, c.run_dir, timeout=1500, keep_out=False)
     c.add_tlc("Tracker", mc, "all call histories; HistoryIndependent evaluated on every state (counter scaled to M = 64)")
     hists = [e for e in mc.emitted if e["h"]]
